@@ -327,6 +327,12 @@ func (c *Config) UnmarshalYAML(unmarshal func(any) error) error {
 		*c.Global = DefaultGlobalConfig()
 	}
 
+	// An explicit `http_config: null` in the global block removes the default; restore it.
+	if c.Global.HTTPConfig == nil {
+		defaultHTTPConfig := commoncfg.DefaultHTTPClientConfig
+		c.Global.HTTPConfig = &defaultHTTPConfig
+	}
+
 	if c.Global.SlackAppToken != "" && len(c.Global.SlackAppTokenFile) > 0 {
 		return errors.New("at most one of slack_app_token & slack_app_token_file must be configured")
 	}
@@ -339,7 +345,7 @@ func (c *Config) UnmarshalYAML(unmarshal func(any) error) error {
 		// Support transition from workaround suggested in https://github.com/prometheus/alertmanager/issues/2513,
 		// where users might set `slack_api_url` at the top level and then have `http_config` with individual
 		// bearer tokens in the receivers.
-		if c.Global.SlackAPIURL.String() != c.Global.SlackAppURL.String() {
+		if c.Global.SlackAPIURL == nil || c.Global.SlackAppURL == nil || c.Global.SlackAPIURL.String() != c.Global.SlackAppURL.String() {
 			return errors.New("at most one of slack_app_token/slack_app_token_file & slack_api_url/slack_api_url_file must be configured")
 		}
 	}
@@ -707,6 +713,9 @@ func (c *Config) UnmarshalYAML(unmarshal func(any) error) error {
 // references a receiver not in the given map.
 func checkReceiver(r *Route, receivers map[string]struct{}) error {
 	for _, sr := range r.Routes {
+		if sr == nil {
+			return errors.New("empty route in routes list")
+		}
 		if err := checkReceiver(sr, receivers); err != nil {
 			return err
 		}
